@@ -4,6 +4,8 @@
 package main
 
 import (
+	"github.com/bytom/bytom/protocol"
+
 	"encoding/json"
 	"fmt"
 	"sort"
@@ -81,7 +83,89 @@ func mainChain(nd *labnet.Node) string {
 	return s
 }
 
+// runEvict: the same enumeration with the orphan pool capacity reduced to 2, so that the eviction path
+// (deleteLRU) runs on small trees. Evicted blocks are legitimately forgotten; whatever is still waiting must
+// stay consistently indexed, connect when its ancestors arrive, and a final in-order re-delivery must end in
+// the in-order state with an empty pool.
+func runEvict(h []int, maxN int) (out xplore.Out) {
+	ss := allShapes(maxN)
+	s := ss[h[0]]
+	perm := shapes.Perm(s.n, h[1])
+	bs := build(s)
+	old := protocol.VerifSetOrphanLimit(2)
+	defer protocol.VerifSetOrphanLimit(old)
+	viol := func(key, what string) { out.Viols = append(out.Viols, xplore.Viol{Key: key, What: what}) }
+	nd, err := labnet.NewNode(crashkv.New())
+	if err != nil {
+		return xplore.Out{Viols: []xplore.Viol{{Key: "infra-newnode", What: err.Error()}}}
+	}
+	checkIndex := func(when string) {
+		out.Checks++
+		orphans := map[string]bool{}
+		for _, oh := range nd.Chain.VerifOrphanBlocks() {
+			orphans[oh.String()] = true
+		}
+		if len(orphans) > 2 {
+			viol("orphan-pool-over-capacity", fmt.Sprintf("%s: %d orphans with capacity 2", when, len(orphans)))
+		}
+		indexed := map[string]bool{}
+		for p, kids := range nd.Chain.VerifOrphanIndex() {
+			for _, k := range kids {
+				if !orphans[k.String()] {
+					viol("dangling-orphan-index-after-eviction", fmt.Sprintf("%s: index of parent %s lists %s which is not in the pool", when, p.String()[:8], k.String()[:8]))
+				}
+				indexed[k.String()] = true
+			}
+		}
+		for o := range orphans {
+			if !indexed[o] {
+				viol("orphan-not-indexed-after-eviction", fmt.Sprintf("%s: orphan %s is in the pool but under no parent", when, o[:8]))
+			}
+		}
+		// an orphan whose parent is stored must not wait
+		for j := 1; j <= s.n; j++ {
+			hash := bs[j].Hash()
+			if !orphans[hash.String()] {
+				continue
+			}
+			ph := bs[j].Block.PreviousBlockHash
+			if _, err := nd.Chain.GetHeaderByHash(&ph); err == nil {
+				viol("orphan-with-known-parent-left-after-eviction", fmt.Sprintf("%s: block %d waits although its parent is stored", when, j))
+			}
+		}
+	}
+	for step, k := range perm {
+		if _, err := nd.Chain.ProcessBlock(bs[k+1].Block); err != nil {
+			viol("valid-block-error", fmt.Sprintf("step %d block %d: %v", step, k+1, err))
+		}
+		checkIndex(fmt.Sprintf("after step %d (block %d)", step, k+1))
+	}
+	// re-deliver everything parents first: nothing may be lost for good
+	for i := 1; i <= s.n; i++ {
+		nd.Chain.ProcessBlock(bs[i].Block)
+	}
+	checkIndex("after in-order re-delivery")
+	for i := 1; i <= s.n; i++ {
+		hash := bs[i].Hash()
+		if _, err := nd.Chain.GetHeaderByHash(&hash); err != nil {
+			viol("block-missing-after-redelivery", fmt.Sprintf("block %d", i))
+		}
+	}
+	if left := nd.Chain.VerifOrphanBlocks(); len(left) != 0 {
+		viol("orphans-left-after-redelivery", fmt.Sprintf("%d orphans", len(left)))
+	}
+	out.Steps = 2 * s.n
+	out.Digest = fmt.Sprintf("evict/%d/%s", h[0], nd.Chain.BestBlockHash().String())
+	out.Outcome = "capacity-2"
+	return
+}
+
 func runCase(h []int, extra json.RawMessage) (out xplore.Out) {
+	if len(h) == 3 {
+		var maxN int
+		json.Unmarshal(extra, &maxN)
+		return runEvict(h, maxN)
+	}
 	var maxN int
 	json.Unmarshal(extra, &maxN)
 	ss := allShapes(maxN)
@@ -194,6 +278,15 @@ func main() {
 			items = append(items, []int{si, k})
 		}
 	}
+	evictN := run.Pick(4, 5)
+	for si, s := range ss {
+		if s.n > evictN {
+			continue
+		}
+		for k := 0; k < shapes.Factorial(s.n); k++ {
+			items = append(items, []int{si, k, 1})
+		}
+	}
 	spec.Describe = func(h []int) interface{} {
 		s := ss[h[0]]
 		perm := shapes.Perm(s.n, h[1])
@@ -201,7 +294,11 @@ func main() {
 		for i, k := range perm {
 			order[i] = k + 1
 		}
-		return map[string]interface{}{"parents(block i -> parent, 0=genesis)": s.p, "delivery_order": order}
+		m := map[string]interface{}{"parents(block i -> parent, 0=genesis)": s.p, "delivery_order": order}
+		if len(h) == 3 {
+			m["orphan_pool_capacity"] = 2
+		}
+		return m
 	}
 	st := xplore.Flat(run, spec, items)
 	shapesByN := map[int]int{}
